@@ -114,6 +114,7 @@ def strategy(tier):
             "levels": st.lists(st.sampled_from(SCHEMA_ENVS), min_size=1, max_size=3), "fenv": st.sampled_from(FIELD_ENVS),
             "node": st.just(node), "var": var, "var2": var, "sibling_var": st.none(),
             "decl": st.sampled_from(["explicit", "explicit", "chain", "item"]),
+            "fname": st.sampled_from([None, None, "Listen Port", "db-host (primary)"]),
             "ops": st.lists(op, min_size=1, max_size=6),
         })
     return _field_node().flatmap(build)
@@ -142,6 +143,9 @@ def exhaustive(tier):
                 for var in (None, "", "42", "1000"):
                     decls = ("explicit", "chain", "item") if depth > 1 and all(env is None for env in levels[1:]) else ("explicit",)
                     for decl in decls:
+                        if decl == "explicit" and var in ("42", None):
+                            yield {"levels": list(levels), "fenv": fenv, "node": node, "var": var, "var2": "43", "sibling_var": None, "decl": decl, "fname": "Listen Port",
+                                   "ops": [{"op": "load_tree", "value": 7, "with_sibling": True}]}
                         yield {"levels": list(levels), "fenv": fenv, "node": node, "var": var, "var2": {None: "17", "": "1000", "42": "43", "1000": "5"}[var], "sibling_var": None, "decl": decl,
                                "ops": [{"op": "load_tree", "value": 7, "with_sibling": True}, {"op": "load_tree", "value": None, "with_sibling": True},
                                        {"op": "loads", "fmt": "yaml", "value": None, "with_sibling": False},
@@ -171,6 +175,8 @@ def _build(cc, case, with_env):
         kw["default"] = specs.realize(d["value"])
     if with_env:
         kw["env"] = case["fenv"]
+    if case.get("fname"):
+        kw["name"] = case["fname"]  # the descriptive name of the field (plays no part in naming the variable)
     field = specs.build_field(cc, node, **kw)
     sibling = cc.IntField(default=5)
     if decl == "chain" and path:
